@@ -474,6 +474,9 @@ def gen_experiment(r, g, n_pre=None, n_test=None, n_cool=None, n_ctl=None, n_trt
         cost = size * (2.0 + 0.05 * g.normal(0, 1, size=D)) * np.array([p == 0 for p in periods])
       elif cost_mode == 'control_test_only' and grp == 1:
         cost = size * 0.5 * in_test
+      elif cost_mode == 'bystander_pre_only' and grp == -1:
+        # only geos outside the two experiment groups spend before the test
+        cost = size * (2.0 + 0.05 * g.normal(0, 1, size=D)) * np.array([p == 0 for p in periods])
       elif cost_mode == 'late_treatment_spend':
         # control spend ramps steadily; the treatment group only starts spending part-way through the pre-period,
         # so the fitted line is negative on early dates although no spend is ever negative
